@@ -19,6 +19,7 @@ import (
 )
 
 const maxViolationKeys = 60
+const maxDistinctTracked = 6_000_000
 
 // Violation is one refutation of the property, identified by Key. The driver compares Key with the
 // committed KNOWN_FINDINGS.txt; everything else about it is for the reader.
@@ -122,7 +123,8 @@ func (r *Run) Case(id string, nontrivial bool) {
 	k := h.Sum64()
 	r.mu.Lock()
 	r.res.Evaluations++
-	if nontrivial {
+	if nontrivial && len(r.seen) < maxDistinctTracked {
+		// beyond the cap further cases are not counted as distinct (conservative under-count)
 		if _, ok := r.seen[k]; !ok {
 			r.seen[k] = struct{}{}
 			r.res.Distinct++
